@@ -6,6 +6,8 @@ L1 result coercion fails or yields the wire type denoting the same value; L2 inp
 specified kinds; L3 literal == variable; L4 idempotence / round trips.
 """
 import datetime as dt
+from decimal import Decimal
+from fractions import Fraction
 import json
 import math
 
@@ -37,6 +39,10 @@ VALUES = [
     "2020-02-29T13:45:10", "2020-02-29 13:45:10", "2020-02-29T13:45:10Z", "2020-02-29T25:00:00", "2020-02-29T13:45:10.123456",
     dt.datetime(2020, 2, 29), dt.datetime(2020, 2, 29, 13, 45, 10), dt.datetime(1900, 1, 1, 13, 45, 10), dt.datetime(1, 1, 1),
     dt.datetime(9999, 12, 31, 23, 59, 59), dt.date(2020, 2, 29), dt.time(13, 45, 10),
+    # exact-arithmetic numbers a resolver may well return: integral, fractional, and within a double's resolution of an integer
+    Decimal("3"), Decimal("1.5"), Decimal("-2"), Decimal("0.9999999999999999999999999999"), Decimal("41.99999999999999999999"),
+    Decimal("7.00000000000000000001"), Decimal("2147483646.99999999999"), Decimal("2147483648"), Decimal("1E+2"), Decimal("NaN"),
+    Decimal("Infinity"), Fraction(3, 1), Fraction(7, 2), Fraction(10 ** 30 + 1, 10 ** 30), Fraction(-1, 3),
 ]
 
 
@@ -58,6 +64,9 @@ def thorough_values():
 
 def make(v):
     return v() if isinstance(v, type) and v in (object, Bad) else v
+
+
+NUMBER = (int, float, Decimal, Fraction)
 
 
 def num_eq(r, x):
@@ -83,7 +92,7 @@ def l1_ok(scalar, x, r):
             return "int-not-32bit-int"
         if isinstance(x, bool):
             return None if r == int(x) else "int-changed-value"
-        if isinstance(x, (int, float)):
+        if isinstance(x, NUMBER):
             return None if num_eq(r, x) else "int-changed-value"
         if isinstance(x, str):
             f = str_number(x)
@@ -98,6 +107,8 @@ def l1_ok(scalar, x, r):
             return None if r == float(x) else "float-changed-value"
         if isinstance(x, float):
             return None if r == x else "float-changed-value"
+        if isinstance(x, (Decimal, Fraction)):
+            return None if r == float(x) else "float-changed-value"
         if isinstance(x, str):
             f = str_number(x)
             return None if (f is not None and r == f) else "float-changed-value"
@@ -121,7 +132,7 @@ def l1_ok(scalar, x, r):
             return "boolean-not-bool"
         if isinstance(x, bool):
             return None if r is x else "boolean-changed-value"
-        if isinstance(x, (int, float)):
+        if isinstance(x, NUMBER):
             return None if r == bool(x) else "boolean-changed-value"
         return "boolean-from-non-boolean"
     if scalar == "ID":
@@ -133,8 +144,11 @@ def l1_ok(scalar, x, r):
             return "id-from-bool"
         if isinstance(x, int):
             return None if r == str(x) else "id-changed-value"
-        if isinstance(x, float):
-            return None if (x == math.floor(x) and r == str(int(x))) else "id-changed-value"
+        if isinstance(x, (float, Decimal, Fraction)):
+            try:
+                return None if (x == math.floor(x) and r == str(int(x))) else "id-changed-value"
+            except (ValueError, OverflowError, ArithmeticError):
+                return "id-changed-value"
         return "id-from-other"
     # temporal
     if type(r) is not str:
@@ -278,11 +292,12 @@ def run_shard(item):
                             viol("temporal-roundtrip-in-out", "result->input", x, back, "(result was %r)" % (r,))
             else:
                 tab("l1", "failed")
-            # ---- L2 input ----
+            # ---- L2 input ----  (Decimal / Fraction are resolver-side values; as *inputs* they are outside the JSON kinds the
+            # statement speaks of)
             v = make(raw)
             out["counts"]["evaluations"] += 1
             out["counts"]["triples"] += 1
-            if v is not None:
+            if v is not None and not isinstance(v, (Decimal, Fraction)):
                 try:
                     got = st.coerce_input(v)
                 except Exception:
